@@ -35,6 +35,10 @@ pub struct RingMonitor {
     /// telegram of maximum length, delivered in RX chunks, consumed a poll later) has been seen.
     settle: u64,
     settle_from: u64,
+    /// Index of the last transmission at the time a station consumed a token telegram that was
+    /// older than its own latest transmission (the predecessor's repeated pass, accepted as a
+    /// second token after the station had used the first: observation O5).
+    stale_token_at_tx: Option<usize>,
 }
 
 impl RingMonitor {
@@ -57,6 +61,7 @@ impl RingMonitor {
             silent: false,
             settle: 256 * 11 * crate::bus::BIT + 2 * w.stations.iter().map(|s| w.us(s.cfg.p_max_us + s.cfg.rx_chunk_us)).max().unwrap_or(0),
             settle_from: w.us(quiet_from_us),
+            stale_token_at_tx: None,
         }
     }
 
@@ -159,7 +164,7 @@ impl RingMonitor {
 /// without reading back one's own transmission: two (or more) token holders whose transmissions
 /// collide every single time because they are polled with exactly the same period, without
 /// jitter or skew, and therefore act in lock-step for ever.  The signature says how it began.
-fn lockstep_diagnosis(w: &World) -> (&'static str, String) {
+fn lockstep_diagnosis(w: &World, stale_token_at_tx: Option<usize>) -> (&'static str, String) {
     let bus = w.bus.borrow();
     let n = bus.txs.len();
     if n < 60 {
@@ -202,6 +207,11 @@ fn lockstep_diagnosis(w: &World) -> (&'static str, String) {
         (
             "not-converged-lockstep-after-simultaneous-claim",
             format!("; the last {} transmissions all collided: stations polled with exactly the same period ({} us, no jitter, no skew) claimed the token in the same instant and have acted in lock-step since", n - first, c0.p_max_us),
+        )
+    } else if matches!(stale_token_at_tx, Some(x) if x <= first + 2 && x + 12 >= first) {
+        (
+            "not-converged-lockstep-after-stale-token",
+            format!("; the last {} transmissions all collided: a station accepted its predecessor's repeated token pass as a second token after it had already used the first, and the two token holders, polled with exactly the same period ({} us, no jitter, no skew), have acted in lock-step since", n - first, c0.p_max_us),
         )
     } else {
         (
@@ -313,6 +323,18 @@ impl Monitor for RingMonitor {
     }
 
     fn on_poll(&mut self, w: &World, p: &PollInfo) {
+        // a token that is older than the station's own latest transmission
+        {
+            let a = w.stations[p.st].cfg.addr;
+            let bus = w.bus.borrow();
+            for r in p.rx {
+                if let RxVerdict::Consumed { frame: Frame::Token { da, sa }, src: Some(x), .. } = &r.verdict {
+                    if *da == a && *sa != a && bus.txs[*x + 1..].iter().any(|t| t.real && t.sender == p.st) {
+                        self.stale_token_at_tx = Some(bus.txs.len());
+                    }
+                }
+            }
+        }
         // bookkeeping for §5.6
         if !p.pre.in_ring {
             let a = w.stations[p.st].cfg.addr;
@@ -341,7 +363,7 @@ impl Monitor for RingMonitor {
                     self.phase = Phase::Stable;
                     self.last_token_da = None;
                 } else if w.now > self.deadline {
-                    let (sig, why) = lockstep_diagnosis(w);
+                    let (sig, why) = lockstep_diagnosis(w, self.stale_token_at_tx);
                     self.violate(
                         w,
                         if self.recovery { "ring.recovery" } else { "ring.convergence" },
